@@ -3,6 +3,10 @@
 // the others help (they sit in a dispatch loop stealing work) until thread 0 releases them.  Every atomic of the scheduler is a
 // schedule point of the seeded random cooperative scheduler; a stuck run (deadlock / stall) becomes a Stuck event.
 #pragma once
+#include <sys/mman.h>
+#include <sys/wait.h>
+#include <signal.h>
+#include <unistd.h>
 #include "vh_tbb.h"
 #include "oneapi/tbb/task_arena.h"
 #include "oneapi/tbb/task_group.h"
@@ -60,6 +64,25 @@ inline Result run_in_arena(int N, unsigned long seed, int den, long maxsteps, co
     S.join_all();
     if (rc == RC_OK) for (auto c : hctx) delete c;
     return {rc, st};
+}
+
+// One execution in a forked child that writes its events straight into the parent's trace file (shared descriptor, line buffered): a crash or hang of the code
+// under test becomes a Crash / Stuck event of that execution instead of taking the harness down.  The result travels back through shared memory.
+inline Result isolated_run(int watchdog_s, const std::function<Result()>& fn) {
+    static Result* shared = (Result*)mmap(nullptr, sizeof(Result), PROT_READ | PROT_WRITE, MAP_SHARED | MAP_ANONYMOUS, -1, 0);
+    shared->rc = -1; shared->steps = 0;
+    if (TR.f) fflush(TR.f);
+    fflush(nullptr);
+    pid_t pid = fork();
+    if (pid == 0) {
+        alarm(watchdog_s); if (TR.f) setvbuf(TR.f, nullptr, _IOLBF, 0);
+        std::set_terminate([] { TR.emit("{\"e\":\"Terminate\"}"); if (TR.f) fflush(TR.f); _exit(0); });
+        Result r = fn(); *shared = r; if (TR.f) fflush(TR.f); _exit(0);
+    }
+    int status = 0; waitpid(pid, &status, 0);
+    if (TR.f) fseek(TR.f, 0, SEEK_END);
+    if (WIFSIGNALED(status)) { if (WTERMSIG(status) == SIGALRM) TR.emit("{\"e\":\"Stuck\",\"rc\":\"watchdog\"}"); else TR.emit("{\"e\":\"Crash\",\"sig\":%d}", WTERMSIG(status)); return {1, shared->steps}; }
+    return *shared;
 }
 
 // Forked execution of one case with a watchdog: crash / hang / std::terminate become events appended by the parent.
